@@ -211,12 +211,23 @@ def conc_scenarios():
         ('PUT P2 under P1 @1.14 || PUT P1 under P3 @1.14', put(2, P(1), '1.14'),
          put(1, P(3), '1.14')),
     ]
+    # two moves of the same provider (P1, P4 top-level; P3 child of P2): whichever write lands
+    # last, parent and root of every provider must agree afterwards
+    base4 = base + [reqs.mk_rp(4)]
+    pairs4 = [
+        ('PUT P1 under P4 || PUT P1 under P3', put(1, P(4)), put(1, P(3))),
+        ('PUT P1 under P4 || PUT P1 under P3 @1.14', put(1, P(4)), put(1, P(3), '1.14')),
+        ('PUT P2 under P1 || PUT P2 under P4', put(2, P(1)), put(2, P(4))),
+        ('PUT P3 to top || PUT P3 under P1', put(3, None), put(3, P(1))),
+        ('PUT P3 under P4 || PUT P2 under P1', put(3, P(4)), put(2, P(1))),
+    ]
     out = []
-    for name, a, b in pairs:
-        a, b = dict(a), dict(b)
-        a['tag'], b['tag'] = name.split(' || ')
-        out.append({'name': name, 'setup': base, 'requests': [a, b], 'bound': None,
-                    'max_exec': 4000})
+    for setup, prs in ((base, pairs), (base4, pairs4)):
+        for name, a, b in prs:
+            a, b = dict(a), dict(b)
+            a['tag'], b['tag'] = name.split(' || ')
+            out.append({'name': name, 'setup': setup, 'requests': [a, b], 'bound': None,
+                        'max_exec': 4000})
     return out
 
 
